@@ -113,7 +113,25 @@ func c04ListingOrder(o *Out, r *Rng, c int) {
 		}
 	}
 	q.Body["biases"] = []interface{}{}
-	if r.chance(0.6) && q.Method == "weightedSum" {
+	if r.chance(0.35) {
+		// inline anchoring reads the anchoring alternatives in the order the PROPS list them, the reference point
+		// per criterion and the value ranges are order-free, every alternative is shifted on its own
+		var aa []interface{}
+		for i, na := 0, r.rangeInt(1, 3); i < na; i++ {
+			a := J{"alternative": q.Problem.Known[r.Intn(len(q.Problem.Known))].Id}
+			if r.chance(0.6) {
+				a["coefficient"] = float64(r.Intn(4)) / 2 // 0 is legal (and what an omitted coefficient decodes to)
+			}
+			aa = append(aa, a)
+		}
+		lin := func() J {
+			return J{"function": "linear", "params": J{"a": float64(r.Intn(5)) / 4, "b": float64(r.Intn(3)) / 8}}
+		}
+		q.Body["biases"] = []interface{}{J{"name": "anchoring", "props": J{"anchoringAlternatives": aa, "loss": lin(), "gain": lin(),
+			"referencePoints": J{"function": []string{"ideal", "nadir"}[r.Intn(2)]},
+			"applier":         J{"function": "inline", "params": J{"applyOnNotConsidered": r.chance(0.5)}}}}}
+		o.count("listing-order:with-inline-anchoring")
+	} else if r.chance(0.6) && q.Method == "weightedSum" {
 		pr := J{"randomSeed": r.Intn(1000), "newCriterionImportance": float64(r.Intn(5)) / 4}
 		r.boundingInto(pr)
 		q.Body["biases"] = []interface{}{J{"name": "criteriaConcealment", "props": pr}}
